@@ -5,7 +5,7 @@
 (*   {op:"reset"}                                   a new execution (script) starts                          *)
 (*   {op:"init"|"regbi", snap}   {op:"regctx", isnull, snap}                                                 *)
 (*   {op:"parse"|"expand", t:{bq,ex,pp}, o:{ns,tm:[{mode,fresh}],dv,d,fds}, snap}                            *)
-(*   {op:"temp", tf:{mode,fresh}}    {op:"free", heap, snap}                                                 *)
+(*   {op:"temp", tf:{mode,fresh}}    {op:"free", heap, snap}    {op:"rename", p}  {op:"rmcwd"}  {op:"backcwd"}          *)
 (* An event is accepted iff the corresponding action of ConfLife is enabled and leads to the recorded        *)
 (* snapshot of the private indices/capacities.  A rejected event is remembered and the rest of its           *)
 (* execution skipped, so that one run judges every execution; the verdict is printed at the end.             *)
@@ -16,12 +16,13 @@ ev == Tr[l]
 
 ObsTrace(op, args, ret, post) ==
     CASE op = "free" -> post.nvars = ev.snap.nvars /\ post.tables = ev.snap.tables    \* the freed tables' stale counters are not state
-      [] op = "temp" -> TRUE
+      [] op \in {"temp", "rename", "rmcwd", "backcwd"} -> TRUE
       [] OTHER       -> post = ev.snap
 
 Reset == /\ inited' = FALSE
          /\ c_idx' = 0 /\ c_cnt' = 0 /\ cs_idx' = 0 /\ cs_cnt' = 0 /\ f_idx' = 0 /\ f_cnt' = 0 /\ b_idx' = 0 /\ b_cnt' = 0 /\ zeroTo' = 0
          /\ nvars' = 0 /\ vhead' = "null" /\ ntemps' = 0
+         /\ cwdok' = TRUE /\ UNCHANGED prog                      \* the harness goes back to its private directory between scripts
 Accept ==
     \/ ev.op = "reset" /\ Reset
     \/ ev.op = "init" /\ OpInit
@@ -31,6 +32,9 @@ Accept ==
     \/ ev.op = "expand" /\ OpExpand(ev.t, ev.o)
     \/ ev.op = "temp" /\ OpTempFile(ev.tf)
     \/ ev.op = "free" /\ OpFree(ev.heap)
+    \/ ev.op = "rename" /\ OpRename(ev.p)
+    \/ ev.op = "rmcwd" /\ OpRemoveCwd
+    \/ ev.op = "backcwd" /\ OpRestoreCwd
 LaterResets == {k \in (l + 1) .. Len(Tr) : Tr[k].op = "reset"}
 NextReset == IF LaterResets = {} THEN Len(Tr) + 1 ELSE CHOOSE k \in LaterResets : \A j \in LaterResets : k <= j
 
